@@ -124,6 +124,30 @@ def contracts():
             'self': dict(kind='expr', code=YT + cls + '()'),
             'engine': dict(kind='expr', code=ENG)}
         k.native_scope = 2
+    # ---- the specialization relation between declared types (C05 / C06):
+    # a strict subclass relation between single classes; never reflexive;
+    # anything that is not a PythonType, or a tuple of classes, is unrelated
+    pt = obj('yaql.language.yaqltypes.PythonType', nullable=True,
+             checker=None, converter=None, python_type=TVal, validators=())
+    SUB = 'ufn("py.issubclass", %s, %s, ret="Bool")'
+    c(Y + 'PythonType.is_specialization_of',
+      name='yaqltypes.PythonType.is_specialization_of/classes',
+      params=dict(self=pt, other=pt),
+      requires=['isinstance(self.python_type, "type")',
+                'isinstance(other.python_type, "type")'],
+      ensures=['result == (%s and not %s)' % (
+          SUB % ('self.python_type', 'other.python_type'),
+          SUB % ('other.python_type', 'self.python_type'))],
+      serves=('C05', 'C06'))
+    c(Y + 'PythonType.is_specialization_of',
+      name='yaqltypes.PythonType.is_specialization_of/foreign',
+      params=dict(self=pt, other=TVal),
+      requires=['not isinstance(other, "PythonType")'],
+      ensures=['result is False'], serves=('C05', 'C06'))
+    c(Y + 'SmartType.is_specialization_of',
+      params=dict(self=obj('yaql.language.yaqltypes.SmartType',
+                           nullable=TBool), other=TVal),
+      ensures=['result is False'], serves=('C05', 'C06'))
     # ---- Iterable.convert: the payload only ever sees a LIMITED iterable --
     c(Y + 'Iterable.convert',
       params=dict(self=typeobj('Iterable'), value=TVal, receiver=TVal,
